@@ -2,6 +2,7 @@ package main
 
 import (
 	"fmt"
+	"regexp"
 	"go/ast"
 	"go/token"
 	"go/types"
@@ -252,6 +253,12 @@ type fnEnc struct {
 	onReturn func(st *state, res []tval)
 	specConsts map[string]string
 	freevars map[string]tval // captured variables: name -> address of the variable
+	curBlock *ssa.BasicBlock
+	winOf    map[ssa.Value]string // pointers produced by slice-to-array conversions -> the slice
+	storeInfo  map[string]storeRec
+	allocNames map[string]bool
+	allocOrder map[string]int
+	declOrder  map[string]int
 }
 
 type inputVar struct {
@@ -266,7 +273,50 @@ type tval struct {
 	lit  *bigLit // untyped integer constant
 }
 
-func (e *fnEnc) emit(s string) { e.ctx = append(e.ctx, s) }
+func (e *fnEnc) emit(s string) { e.ctx = append(e.ctx, foldTerm(s)) }
+
+var selRe = regexp.MustCompile(`\((s_base|s_off|s_len|s_cap) ([A-Za-z0-9_!]+)\)`)
+var litArithRe = regexp.MustCompile(`\((bvadd|bvsub) (#x[0-9a-f]{16}) (#x[0-9a-f]{16})\)`)
+var addZeroRe = regexp.MustCompile(`\(bvadd #x0000000000000000 ([A-Za-z0-9_!#]+)\)`)
+
+// foldTerm folds selectors of slices whose components are known and constant index
+// arithmetic (purely syntactic, sound rewriting).
+func foldTerm(s string) string {
+	for i := 0; i < 4; i++ {
+		t := selRe.ReplaceAllStringFunc(s, func(m string) string {
+			sm := selRe.FindStringSubmatch(m)
+			if c, ok := sliceDefs[sm[2]]; ok {
+				switch sm[1] {
+				case "s_base":
+					return c[0]
+				case "s_off":
+					return c[1]
+				case "s_len":
+					return c[2]
+				default:
+					return c[3]
+				}
+			}
+			return m
+		})
+		t = litArithRe.ReplaceAllStringFunc(t, func(m string) string {
+			sm := litArithRe.FindStringSubmatch(m)
+			var a, b uint64
+			fmt.Sscanf(sm[2][2:], "%x", &a)
+			fmt.Sscanf(sm[3][2:], "%x", &b)
+			if sm[1] == "bvadd" {
+				return bvLit(64, a+b)
+			}
+			return bvLit(64, a-b)
+		})
+		t = addZeroRe.ReplaceAllString(t, "$1")
+		if t == s {
+			break
+		}
+		s = t
+	}
+	return s
+}
 
 func (e *fnEnc) freshName(prefix string) string {
 	e.ctr++
@@ -279,16 +329,27 @@ func (e *fnEnc) declare(prefix string, s *Sort) string {
 	case skSlice:
 		// components as separate constants: lets the solvers' equation solving eliminate them
 		e.emit(fmt.Sprintf("(declare-const %s_b Ref)\n(declare-const %s_o (_ BitVec 64))\n(declare-const %s_l (_ BitVec 64))\n(declare-const %s_c (_ BitVec 64))\n(define-fun %s () Slice (mkslice %s_b %s_o %s_l %s_c))", n, n, n, n, n, n, n, n, n))
+		sliceDefs[n] = [4]string{n + "_b", n + "_o", n + "_l", n + "_c"}
+		e.declOrder[n+"_b"] = e.ctr
 	case skIface:
 		e.emit(fmt.Sprintf("(declare-const %s_t Int)\n(declare-const %s_v Ref)\n(define-fun %s () Iface (mkiface %s_t %s_v))", n, n, n, n, n))
 	default:
 		e.emit(fmt.Sprintf("(declare-const %s %s)", n, s.name))
+		if s.kind == skRef {
+			e.declOrder[n] = e.ctr
+		}
 	}
 	return n
 }
 
 func (e *fnEnc) define(prefix string, s *Sort, term string) string {
+	term = foldTerm(term)
 	n := e.freshName(prefix)
+	if s.kind == skSlice && strings.HasPrefix(term, "(mkslice ") {
+		if c, ok := splitMkslice(term); ok {
+			sliceDefs[n] = c
+		}
+	}
 	e.emit(fmt.Sprintf("(define-fun %s () %s %s)", n, s.name, term))
 	return n
 }
@@ -398,7 +459,7 @@ func (e *fnEnc) oblige(st *state, kind, anchor string, pos token.Pos, cond strin
 	if e.depth > 0 {
 		name = fmt.Sprintf("%s#%s@%d", funcKey(e.topFn()), "inl."+sanitize(e.fn.Name())+"."+base, e.anchors[base])
 	}
-	o := &Obligation{Name: name, Kind: kind, Func: funcKey(e.fn), Pos: where, Goal: implies(st.reach, cond), CtxLen: len(e.ctx), enc: e, Src: txt}
+	o := &Obligation{Name: name, Kind: kind, Func: funcKey(e.fn), Pos: where, Goal: foldTerm(implies(st.reach, cond)), CtxLen: len(e.ctx), enc: e, Src: txt}
 	if cond == "true" || st.reach == "false" {
 		// trivially discharged; still counted
 		o.Result, o.Solver = "unsat", "trivial"
@@ -493,8 +554,9 @@ func (e *fnEnc) topo() []*ssa.BasicBlock {
 func (V *Verifier) encodeFunction(fn *ssa.Function, fc *FuncContract) (enc *fnEnc) {
 	e := &fnEnc{V: V, fn: fn, fc: fc, lazySet: map[string]bool{}, vals: map[ssa.Value]string{}, tuples: map[ssa.Value][]string{},
 		out: map[*ssa.BasicBlock]*state{}, edgeCond: map[[2]int]string{}, anchors: map[string]int{}, params: map[string]tval{},
-		closures: map[ssa.Value]*ssa.MakeClosure{}, rangeSrc: map[ssa.Value]ssa.Value{}, deferSt: map[*ssa.Defer]string{}, specConsts: map[string]string{}}
+		closures: map[ssa.Value]*ssa.MakeClosure{}, rangeSrc: map[ssa.Value]ssa.Value{}, deferSt: map[*ssa.Defer]string{}, specConsts: map[string]string{}, winOf: map[ssa.Value]string{}, storeInfo: map[string]storeRec{}, allocNames: map[string]bool{}, allocOrder: map[string]int{}, declOrder: map[string]int{}}
 	enc = e
+	sliceDefs = map[string][4]string{}
 	defer func() {
 		if r := recover(); r != nil {
 			if ue, ok := r.(unsupported); ok {
@@ -1022,6 +1084,7 @@ func isPointerShaped(t types.Type) bool {
 // ---------------------------------------------------------------------------
 
 func (e *fnEnc) execBlock(b *ssa.BasicBlock, st *state) {
+	e.curBlock = b
 	for _, ins := range b.Instrs {
 		if _, ok := ins.(*ssa.Phi); ok {
 			continue
@@ -1042,6 +1105,9 @@ func (e *fnEnc) execBlock(b *ssa.BasicBlock, st *state) {
 // val returns the SMT term of an SSA value.
 func (e *fnEnc) val(v ssa.Value) string {
 	if t, ok := e.vals[v]; ok {
+		if t == "WINDOW-POINTER-ESCAPED" {
+			e.unsupported("a pointer obtained by a slice-to-array conversion is stored or passed on (%s)", v.Name())
+		}
 		return t
 	}
 	switch x := v.(type) {
